@@ -21,7 +21,14 @@ class E:
         if k == "var":
             return "$" + a[0]
         if k == "ident":
-            return a[0]
+            return a[0] if a[0] else 'unquote("")'
+        if k == "qstr":
+            return '"' + a[0] + '"'
+        if k == "blist":
+            xs, comma = a
+            if len(xs) == 1 and comma:
+                return f"[{xs[0].scss()},]"
+            return "[" + (", " if comma else " ").join(x.scss() for x in xs) + "]"
         if k in ("+", "<", "=="):
             return f"({a[0].scss()} {k} {a[1].scss()})"
         if k == "list":
@@ -51,6 +58,11 @@ class E:
             return "$" + a[0]
         if k == "ident":
             return "'" + a[0]
+        if k == "qstr":
+            return '"' + a[0]
+        if k == "blist":
+            xs, comma = a
+            return "(blist " + ("c" if comma else "s") + "".join(" " + x.term() for x in xs) + ")"
         if k in ("+", "<", "=="):
             return f"({k} {a[0].term()} {a[1].term()})"
         if k == "list":
@@ -72,6 +84,8 @@ def add(a, b): return E("+", a, b)
 def lt(a, b): return E("<", a, b)
 def eq(a, b): return E("==", a, b)
 def lst(xs, comma=True): return E("list", list(xs), comma)
+def blst(xs, comma=True): return E("blist", list(xs), comma)
+def qstr(s): return E("qstr", s)
 def mp(kv): return E("map", list(kv))
 def call(f, args): return E("call", f, list(args))
 def inspect(e): return E("inspect", e)
